@@ -64,6 +64,36 @@ func heldVerdict() string {
 	return "ok"
 }
 
+// held keys: the same for key OBJECTS the library returned (decoders, key generation): each is kept with the encoding it
+// had when it was produced and encoded again when the generator has finished (a key whose fields come from a pool or
+// point into a buffer that is reused changes when another key is decoded).
+type heldKey struct {
+	label string
+	k     interface{ Encode() []byte }
+	was   string
+}
+
+var heldKeys []heldKey
+
+func holdKey(label string, k interface{ Encode() []byte }, enc []byte) {
+	heldMu.Lock()
+	defer heldMu.Unlock()
+	if len(heldKeys) < 3000 {
+		heldKeys = append(heldKeys, heldKey{label, k, hx(enc)})
+	}
+}
+
+func heldKeysVerdict() string {
+	return guard(func() string {
+		for _, h := range heldKeys {
+			if now := hx(h.k.Encode()); now != h.was {
+				return "key-object-changed-later: " + h.label + " encoded to " + h.was + " when produced, to " + now + " at the end"
+			}
+		}
+		return "ok"
+	})
+}
+
 // Case records one case: protocol line (without id) and the implementation's canonical answer.
 func (c *Ctx) Case(class, line, implAnswer string) {
 	c.n++
@@ -139,6 +169,7 @@ func main() {
 		extra: map[string]any{}}
 	gen(c)
 	c.Case("held-outputs", fmt.Sprintf("expect ok #held %d", len(heldOuts)), heldVerdict())
+	c.Case("held-keys", fmt.Sprintf("expect ok #heldkeys %d", len(heldKeys)), heldKeysVerdict())
 	c.Case("decoder-refusals", "expect ok #refusals", refusalVerdict())
 	c.Case("argument-surroundings", "expect ok #guards", guardVerdict())
 	c.cases.Flush()
